@@ -804,6 +804,27 @@ theorem seq_is_pair (per : Bool) (lo hi : Spec) (h1 : lo ≠ .periodic) (h2 : hi
     entryBC per (.seq [lo, hi]) = pairOf per (some lo) (some hi) := by
   simp [entryBC, h1, h2]
 
+/-- **the three ways to write two different conditions for the two sides of an axis agree**:
+`{"x": {"low": A, "high": B}}`, `{"x": (A, B)}` and `{"x-": A, "x+": B}` -/
+theorem formats_agree (per : Bool) (A B : Spec) (hne : A ≠ B) (hA : A ≠ .periodic) (hB : B ≠ .periodic) :
+    axisOfSides per (some (.lowHigh (some A) (some B) false)) (some (.lowHigh (some A) (some B) false))
+      = axisOfSides per (some (.one A)) (some (.one B)) ∧
+    axisOfSides per (some (.seq [A, B])) (some (.seq [A, B]))
+      = axisOfSides per (some (.one A)) (some (.one B)) := by
+  have h1 : ¬ ((some (Entry.one A) : Option Entry) = some (.one B)) := by simpa using hne
+  have hpA : Entry.isPeriodic (some (.one A)) = false := by
+    cases A <;> simp_all [Entry.isPeriodic]
+  have hpB : Entry.isPeriodic (some (.one B)) = false := by
+    cases B <;> simp_all [Entry.isPeriodic]
+  have rhs : axisOfSides per (some (.one A)) (some (.one B)) = pairOf per (some A) (some B) := by
+    simp [axisOfSides, h1, hpA, hpB, Entry.asSide]
+  rw [rhs]
+  constructor
+  · simp only [axisOfSides, ↓reduceIte]
+    exact lowHigh_is_pair per A B
+  · simp only [axisOfSides, ↓reduceIte]
+    exact seq_is_pair per A B hA hB
+
 /-- a `{"low", "high"}` dictionary with a missing side or with left-over items is an error -/
 theorem lowHigh_incomplete_is_error (per : Bool) (lo hi : Option Spec) (extra : Bool)
     (h : lo = none ∨ hi = none ∨ extra = true) : ∃ e, lowHighBC per lo hi extra = .error e := by
